@@ -5,7 +5,7 @@ from ..common import wint, wdy
 NONE = -99
 
 
-def obs_infer(fx, np, props, vals, sa, given, nw, nf, ni, cap, carrier='scalar', extra=None, prior=False):
+def obs_infer(fx, np, props, vals, sa, given, nw, nf, ni, cap, carrier='scalar', extra=None, prior=False, raw=False):
     """Fxp(values, signed=?, n_word=?, n_frac=?, n_int=?, n_word_max=cap); vals are exact Fractions"""
     base = {'k': 'infer', 'p': list(props), 'sa': sa, 'given': given, 'nw': nw, 'nf': nf, 'ni': ni, 'cap': cap, 'carrier': carrier,
             'route': 'ctor', 'v': [wdy(v) for v in vals], 'capcase': False}
@@ -25,6 +25,12 @@ def obs_infer(fx, np, props, vals, sa, given, nw, nf, ni, cap, carrier='scalar',
         else:
             obj = list(nums)
         kw = {}
+        if raw and nf != NONE and nf >= 0 and not carrier.startswith('np.') and all((v * 2 ** nf).denominator == 1 for v in vals):
+            # the values are given as CODES with raw=True (n_frac is known): the inferred word is the same
+            codes = [int(v * 2 ** nf) for v in vals]
+            obj = codes[0] if carrier == 'scalar' else (np.array(codes) if carrier == 'ndarray' else (tuple(codes) if carrier == 'tuple' else codes))
+            kw['raw'] = True
+            base['route'] = 'ctor/raw'
         if sa != 'none':
             kw['signed'] = (sa == 'T')
         if nw != NONE: kw['n_word'] = nw
